@@ -200,6 +200,8 @@ struct Stats {
 	std::unordered_set<uint64_t> nt_hashes;
 	std::vector<std::string> samples;
 	std::map<std::string, int64_t> extra;   // free-form numeric facts
+	std::map<std::string, std::pair<uint64_t, std::string>> survey;   // development aid: failures by signature, first sample each
+	void survey_add(const std::string &sig, const std::string &sample) { auto &e = survey[sig]; if (e.first++ == 0) e.second = sample; }
 	bool exhaustive = false;
 	size_t max_samples = 12;
 	uint64_t sample_stride = 1, nt_seen = 0;
@@ -273,6 +275,9 @@ inline void write_result(const Ctx &c, double wall) {
 	f << "},\n \"extra\": {";
 	first = true;
 	for (auto &kv : c.st.extra) { f << (first ? "" : ", ") << "\"" << jesc(kv.first) << "\": " << kv.second; first = false; }
+	f << "},\n \"survey\": {";
+	first = true;
+	for (auto &kv : c.st.survey) { f << (first ? "" : ", ") << "\"" << jesc(kv.first) << "\": [" << kv.second.first << ", \"" << jesc(kv.second.second) << "\"]"; first = false; }
 	f << "},\n \"samples\": [";
 	first = true;
 	for (auto &s : c.st.samples) { f << (first ? "" : ", ") << "\"" << jesc(s) << "\""; first = false; }
